@@ -1203,7 +1203,7 @@ class t2grid(object):
                         con.block = con.block[::-1]
                         # keep physical data attached to the same blocks:
                         con.distance = con.distance[::-1]
-                        con.dircos = -con.dircos
+                        if con.dircos is not None: con.dircos = -con.dircos
                         con.nad1, con.nad2 = con.nad2, con.nad1
                         for blk in con.block:
                             blk.connection_name.remove(orignames)
